@@ -1563,7 +1563,10 @@ class ReusableRandomGreedyOptimizer(ReusableOptimizer):
     def _deconstruct_tree(self, opt, tree):
         return {
             "path": tree.get_path(),
-            "score": opt.best_flops,
+            # n.b. the tree's score, like ``update_from_tree`` stores, not
+            # ``opt.best_flops`` (log10 of the flops): entries written either
+            # way are compared with each other if ``overwrite='improved'``
+            "score": tree.get_score(),
             # store this for cache compatibility
             "sliced_inds": (),
         }
